@@ -763,14 +763,26 @@ func (resp *Response) BodyWriteTo(w io.Writer) error {
 //
 // It is safe re-using p after the function returns.
 func (resp *Response) AppendBody(p []byte) {
-	resp.closeBodyStream(nil)  //nolint:errcheck
-	resp.bodyBuffer().Write(p) //nolint:errcheck
+	resp.closeBodyStream(nil)        //nolint:errcheck
+	resp.appendBodyBuffer().Write(p) //nolint:errcheck
 }
 
 // AppendBodyString appends s to response body.
 func (resp *Response) AppendBodyString(s string) {
-	resp.closeBodyStream(nil)        //nolint:errcheck
-	resp.bodyBuffer().WriteString(s) //nolint:errcheck
+	resp.closeBodyStream(nil)              //nolint:errcheck
+	resp.appendBodyBuffer().WriteString(s) //nolint:errcheck
+}
+
+// appendBodyBuffer returns the body buffer for appending to the current
+// body: a body set with SetBodyRaw is copied into it first, so that it is
+// extended rather than silently replaced.
+func (resp *Response) appendBodyBuffer() *bytebufferpool.ByteBuffer {
+	raw := resp.bodyRaw
+	bodyBuf := resp.bodyBuffer()
+	if raw != nil {
+		bodyBuf.Set(raw)
+	}
+	return bodyBuf
 }
 
 // SetBody sets response body.
